@@ -146,7 +146,7 @@ func c09GenClients(t *rapid.T, mode string) []*c09Client {
 	n := rapid.IntRange(2, 8).Draw(t, "nClients")
 	// few distinct questions so that identical ones meet
 	nNames := rapid.IntRange(1, 3).Draw(t, "nNames")
-	nTypes := rapid.IntRange(1, 3).Draw(t, "nTypes")
+	types := c09DrawQtypeSet(t)
 	out := make([]*c09Client, n)
 	for i := range out {
 		base := c09Names[rapid.IntRange(0, nNames-1).Draw(t, "name")]
@@ -158,7 +158,7 @@ func c09GenClients(t *rapid.T, mode string) []*c09Client {
 			idx:     i,
 			name:    c09MangleCase(base, mask),
 			lname:   base,
-			qtype:   c09Qtypes[rapid.IntRange(0, nTypes-1).Draw(t, "qtype")],
+			qtype:   types[rapid.IntRange(0, len(types)-1).Draw(t, "qtype")],
 			id:      rapid.SampledFrom(c09IDs).Draw(t, "id"),
 			realDst: netip.MustParseAddrPort("192.0.2.53:53"),
 			w:       &c09Writer{},
